@@ -222,6 +222,25 @@ RecvNackX(t, r, env, X) ==
   /\ UNCHANGED <<now, up, used, tm, dl, vrun, aw, held>>
 RecvNack(t, r, env) == RecvNackX(t, r, env, {})
 
+\* A Nack handed over in the SAME loop iteration in which lifetime timers are due (the Nack's callback first, the timer
+\* handles right behind it in the ready queue).  An Interest that is both nacked and due finishes at its deadline with the
+\* reason or with the timeout: its awaiting coroutine is woken once and the event loop's wait_for decides which of the two
+\* it reports (asyncio 3.12: the timeout) - the statement allows either at that instant.  Every other nacked Interest
+\* finishes with the reason, every other due Interest with its timeout, nothing else changes.
+RecvNackFire(t, r, env) ==
+  /\ up /\ Due # {}
+  /\ LET o == [k |-> "nack", d |-> 0, r |-> r, v |-> "-", at |-> now]
+         to == [k |-> "timeout", d |-> 0, r |-> 0, v |-> "-", at |-> now]
+         N == Nacked(t)
+         D2 == Due \ N IN
+     \E B \in SUBSET (N \cap Due), S \in SUBSET D2 :
+       /\ \A e \in D2 : (e \notin S) => MayNotFire(e)
+       /\ out' = [e \in Entry |-> IF e \in B \/ e \in S THEN to ELSE IF e \in N /\ aw[e] THEN o ELSE out[e]]
+       /\ buf' = [e \in Entry |-> IF e \in N /\ ~aw[e] THEN o ELSE buf[e]]
+       /\ ph' = [e \in Entry |-> IF e \in N THEN (IF aw[e] THEN "fin" ELSE "ready")
+                                  ELSE IF e \in S THEN "fin" ELSE IF e \in D2 THEN "late" ELSE ph[e]]
+  /\ UNCHANGED <<now, up, used, tm, dl, vrun, aw, held>>
+
 \* anything a transport may deliver that addresses nothing: malformed / truncated packets, LP
 \* packets without payload, fragments, unknown types, Data or Nacks nobody waits for
 RecvJunk(j) == up /\ UNCHANGED vars
@@ -234,6 +253,7 @@ Next ==
   \/ \E t \in 2..MaxT : Jump(t)
   \/ \E e \in Entry : Cancel(e) \/ Await(e)
   \/ \E t \in Templates, r \in Reasons, env \in Envs, X \in Races : RecvNackX(t, r, env, X)
+  \/ \E t \in Templates, r \in Reasons, env \in Envs : RecvNackFire(t, r, env)
   \/ \E j \in Junk : RecvJunk(j)
 
 Fairness == /\ WF_vars(Tick) /\ WF_vars(Fire)
@@ -291,6 +311,8 @@ W_DataAtDeadline == ~(\E e \in Entry : out[e].k = "data" /\ out[e].at = dl[e])
 W_TimeoutWhileValidating == ~(\E e \in Entry : out[e].k = "timeout" /\ vrun[e] # 0)
 W_TwoSatisfied == ~(Cardinality({e \in Entry : out[e].k = "data"}) >= 2)
 W_NackOne == ~(\E e, f \in Entry : out[e].k = "nack" /\ ph[f] = "pend")
+W_NackAtDeadline == ~(\E e \in Entry : out[e].k = "nack" /\ out[e].at = dl[e])
+W_NackFireBoth == ~(\E e, f \in Entry : out[e].k = "nack" /\ out[f].k = "timeout" /\ out[e].at = out[f].at)
 W_VFail == ~(\E e \in Entry : out[e].k = "vfail")
 W_RaceData == ~(\E e, f \in Entry : out[e].k = "cancel" /\ out[f].k = "data" /\ tm[e].name = tm[f].name /\ out[e].at <= out[f].at)
 W_LateAwaitData == ~(\E e \in Entry : out[e].k = "data" /\ out[e].at > dl[e])
